@@ -55,7 +55,11 @@ class Cases:
         return coqrun.run_cases(self.imports, self.defs, self.case_type, self.terms, self.checker, shard=shard)
 
     def model_answer(self, i, expr_of_case):
-        """Ask Coq what the model computes for case i (for the replay file)."""
+        """Ask Coq what the model computes for case i (for the replay file).  Only for the first 25 failing cases of a batch:
+        a change that breaks thousands of cases must not turn the report into thousands of coqc calls."""
+        self._answers = getattr(self, "_answers", 0) + 1
+        if self._answers > 25:
+            return "<not evaluated: the first 25 failing cases of this batch carry the model's answer>"
         try:
             return coqrun.eval_term(self.imports, self.defs, expr_of_case(self.terms[i]))[-3000:]
         except Exception as e:
@@ -821,3 +825,12 @@ def alias_probe(call, x1, x2, ref_call, rtol=0.0):
                 "first_point": np.asarray(x1).tolist(), "second_point": np.asarray(x2).tolist(),
                 "got": keep2.tolist(), "independent": want2.tolist()}
     return None
+
+
+def safe_repr(obj):
+    """repr() that survives loop-built trees thousands of levels deep (the library's __repr__ is recursive)."""
+    import builtins
+    try:
+        return builtins.repr(obj)
+    except RecursionError:
+        return f"<{type(obj).__name__}: too deep to print>"
